@@ -82,7 +82,8 @@ Definition date_fields_ok (T : post_table) : bool :=
 Definition known_batch_steps : list string := [ "SetID"; "SetValidation"; "setEntryRecordType"; "catx"; "setADVEntryRecordType"; "build"; "ConvertBatchType" ].
 Definition known_iat_steps : list string := [ "SetID"; "SetValidation"; "setIATEntryRecordType"; "build"; "append" ].
 Definition known_stages : list string :=
-  [ "header"; "setBatchesFromJSON"; "overwriteDateTimeFields"; "control"; "batchCount"; "Create"; "Validate" ].
+  [ "SetValidation(opts)"; "SetValidation(out.validateOpts.merge(validateOpts))"; "SetValidation(opts)";
+    "header"; "setBatchesFromJSON"; "overwriteDateTimeFields"; "control"; "batchCount"; "Create"; "Validate" ].
 
 Definition post_table_ok (T : post_table) : bool :=
   match pt_unknown T with [] => true | _ => false end
